@@ -46,6 +46,16 @@ def harnesses(thorough):
     mk("4pts-disjoint-bins", [0.1, 0.7, 0.1, 0.7], [0.1, 0.1, 0.7, 0.7], 1)
     mk("1pt", [0.1], [0.1], 1)
     mk("0pts", [], [], 1)
+    # vacuity guard: a kernel that hands whole blocks of points to its threads has a single iteration on the tiny
+    # inputs above. These inputs are only explored when the kernel's parallel loop has 2..4 iterations on them
+    # (a per-point loop has thousands and is covered by the tiny inputs instead). Integer-valued weights: exact sums.
+    for n in ((1 << 11, 1 << 13, 1 << 14, 3 * 4096 + 1) + ((1 << 16, 1 << 17) if thorough else ())):
+        i = np.arange(n)
+        xs = (i % 97) / 97.0 * 0.4 + 0.05
+        ys = (i % 89) / 89.0 * 0.4 + 0.05
+        x, y = xs.astype(float), ys.astype(float)
+        vals = ((i % 7) + 1.0).reshape(1, n)
+        H[f"scaled-{n}pts-one-bin"] = ((x, y, vals, 0.0, 1.0, 2, 0.0, 1.0, 2), n, 3 if thorough else 2)
     if thorough:
         mk("4pts-same-bin-2layers", [0.1, 0.2, 0.3, 0.4], [0.1, 0.2, 0.3, 0.4], 2)
         mk("3pts-same-bin-2layers-3threads", [0.1, 0.2, 0.3], [0.1, 0.2, 0.3], 2, T=3)
@@ -121,14 +131,16 @@ def e3_work(payload):
             if not same(seqT, ref):
                 acc.violation("C05:result-depends-on-thread-count", (0, T), {"kind": "schedule", "harness": t["h"], "partition": [], "threads": T, "schedule": []}, check(seqT))
             iters = getattr(s0, "iterations", [])
+            if t["h"].startswith("scaled-") and not (2 <= len(iters) <= 4):
+                acc.case(nontrivial=False, outcome="scaled-input-not-needed:iterations=" + ("1" if len(iters) < 2 else "many"))
+                continue
             conf = S.conflicts(s0)
             for part in [sorted(p) for p in S.set_partitions(iters, T)]:
                 case = {"kind": "schedule", "harness": t["h"], "partition": part, "threads": T}
                 if len(part) <= 1:
                     continue
-                owner = {i: k for k, blk in enumerate(part) for i in blk}
-                cross = [cf for cf in conf if len({owner[i] for i in cf[3]}) > 1]
-                ppt = [sum(len(s0.access.get(i, [])) for i in p) + 1 for p in part]
+                cross = S.cross_conflicts(s0, part, T)
+                ppt = [sum(len(s0.accesses_of(s0.main_region, i)) for i in p) + 1 for p in part]
                 if not cross:
                     # conflict certificate: no element is written by an iteration of one thread and read or written by
                     # an iteration of another, so all interleavings are equivalent; run one and compare
